@@ -15,7 +15,8 @@
    {"op":"once","d":n}                             clock += n; core.run_once()
    {"op":"run","d":n,"fuel":m}                     core.run() until now + n
    {"op":"jump","fuel":m}                          core.run() until the armed deadline
-   fn = {"id":n,"r":bool,"k":[fn…]}
+   fn = {"id":n,"r":bool,"k":[fn…],"a":[act…]}     ("a" optional; tasks may carry "a" too)
+   act = ["at",tid,t] | ["after",tid,d] | ["suspend",tid] | ["stop"]
    any request but reset may carry "from":k (restore snapshot k before the
    operation) and "to":k (save the state after the operation as snapshot k)
    All times in requests are ticks; all times in replies are µs (rounded to
@@ -31,9 +32,25 @@ structure St where
   tpu : Nat := 1
   slots : Array World := #[]   -- snapshots for the depth-first enumeration of histories
 
+/-- ["at",tid,t] | ["after",tid,d] | ["suspend",tid] | ["stop"] -/
+def actOfJson (j : Json) : R Act := do
+  let a ← j.getArr?
+  match (← (a[0]?.getD Json.null).getStr?) with
+  | "at" => pure (Act.installAt (← (a[1]?.getD Json.null).getNat?) (← (a[2]?.getD Json.null).getNat?))
+  | "after" => pure (Act.installAfter (← (a[1]?.getD Json.null).getNat?) (← (a[2]?.getD Json.null).getNat?))
+  | "suspend" => pure (Act.suspend (← (a[1]?.getD Json.null).getNat?))
+  | "stop" => pure Act.stop
+  | o => throw s!"unknown act {o}"
+
+/-- optional field "a": list of acts -/
+def actsOfJson (j : Json) : R (List Act) :=
+  match fldOpt j "a" with
+  | none => pure []
+  | some v => do (← v.getArr?).toList.mapM actOfJson
+
 partial def fnOfJson (j : Json) : R Fn := do
   let kids ← (← fldArr j "k").toList.mapM fnOfJson
-  pure (Fn.mk (← fldNat j "id") (← fldBool j "r") kids)
+  pure (Fn.mk (← fldNat j "id") (← fldBool j "r") kids (← actsOfJson j))
 
 def us (tpu t : Nat) : Nat := (2 * t + tpu) / (2 * tpu)
 
@@ -43,6 +60,10 @@ def jEv (tpu : Nat) : Ev → Json
   | .taskErr tid => Json.arr #["terr", Json.num tid]
   | .fnErr id => Json.arr #["ferr", Json.num id]
   | .raised k => Json.arr #["raised", Json.str k.name]
+  | .act (.installAt tid t) now due => Json.arr #["act", "at", Json.num tid, Json.num (us tpu t), Json.num (us tpu now), jNatOpt (due.map (us tpu))]
+  | .act (.installAfter tid d) now due => Json.arr #["act", "after", Json.num tid, Json.num (us tpu d), Json.num (us tpu now), jNatOpt (due.map (us tpu))]
+  | .act (.suspend tid) now _ => Json.arr #["act", "suspend", Json.num tid, Json.num (us tpu now)]
+  | .act .stop now _ => Json.arr #["act", "stop", Json.num (us tpu now)]
 
 /-- entries sorted by (time, seq): repeated popMin -/
 def sortedEntries : Nat → List Entry → List Entry
@@ -61,6 +82,7 @@ def digest (s : St) : Json :=
     ("flags", Json.arr (ids.map fun i => Json.bool (tm.flag i)).toArray),
     ("ttime", Json.arr (ids.map fun i => jNatOpt ((tm.ttime i).map (us s.tpu))).toArray),
     ("trig", Json.bool tm.trig),
+    ("running", Json.bool s.w.running),
     ("queue", Json.arr (s.w.queue.map fun f => Json.num f.id).toArray)]
 
 def reply (s : St) (aux : Option Nat) : St × Json :=
@@ -82,7 +104,7 @@ def handle (s : St) (j : Json) : R (St × Json) := do
     let ts ← fldArr j "tasks"
     let specs ← ts.toList.mapM fun t => do
       let defers ← (← fldArr t "defers").toList.mapM fnOfJson
-      pure ((← fldBool t "rec"), ({ raises := (← fldBool t "raises"), defers := defers } : Body))
+      pure ((← fldBool t "rec"), ({ raises := (← fldBool t "raises"), defers := defers, acts := (← actsOfJson t) } : Body))
     let w : World := {
       tm := { jitter := tpu },
       recurring := fun i => match specs[i]? with | some (r, _) => r | none => false,
@@ -113,7 +135,7 @@ def handle (s : St) (j : Json) : R (St × Json) := do
     | "defer" => do pure (Op.defer (← fnOfJson (← fld j "f")))
     | "tick" => do pure (Op.tick (← fldNat j "d"))
     | "next" => pure Op.next
-    | "once" => do pure (Op.advOnce (← fldNat j "d"))
+    | "once" => do pure (Op.advOnce (← fldNat j "d") (fldNatD j "fuel" 1000))
     | "run" => do pure (Op.advRun (← fldNat j "d") (← fldNat j "fuel"))
     | "jump" => do pure (Op.jumpRun (← fldNat j "fuel"))
     | o => throw s!"unknown op {o}"
